@@ -19,10 +19,10 @@ pub fn def() -> CheckDef {
         },
         gen,
         run,
-        rule: "seeded histories (<= 30 ops) of structure ops plus all setters with drawn values: CLSIDs (nil, all-ones, random), state words (0, 1, 0x80000000, u32::MAX, random), times before 1601, at 1601 +- 1 tick, before 1970, +-1..99 ns, exactly u64::MAX ticks and beyond; objects in every directory sector; the simulated clock (cfb_verif hook) is set to drawn instants - including before 1601, beyond year 60056 and jumping backwards - before create_storage and touch. Oracle: an independent i128 conversion (truncate toward 1970, clamp to 0..=u64::MAX ticks); entries and listings return exactly that immediately, in the full dump, and after reopen in both modes; streams report nil/zero; a new storage's times equal the sim-clock reading. Non-trivial: >= 1 successful setter or clocked creation; distinct = distinct (seam log, final image) hash.",
+        rule: "(every fifth case runs in 'setter-retry' mode: each setter call first meets one transient failure of the underlying file, is retried, and the value must then survive reopening like any other) seeded histories (<= 30 ops) of structure ops plus all setters with drawn values: CLSIDs (nil, all-ones, random), state words (0, 1, 0x80000000, u32::MAX, random), times before 1601, at 1601 +- 1 tick, before 1970, +-1..99 ns, exactly u64::MAX ticks and beyond; objects in every directory sector; the simulated clock (cfb_verif hook) is set to drawn instants - including before 1601, beyond year 60056 and jumping backwards - before create_storage and touch. Oracle: an independent i128 conversion (truncate toward 1970, clamp to 0..=u64::MAX ticks); entries and listings return exactly that immediately, in the full dump, and after reopen in both modes; streams report nil/zero; a new storage's times equal the sim-clock reading. Non-trivial: >= 1 successful setter or clocked creation; distinct = distinct (seam log, final image) hash.",
         assumptions: &["the sim clock is read through the cfg(cfb_verif) hook in Timestamp::now / CompoundFile::touch; with no override the real clock would be read"],
         cpu_limit_s: 30,
-        fault_kinds: "F-CK clock jumps / skew (set_clock ops)",
+        fault_kinds: "F-CK clock jumps / skew (set_clock ops); every fifth case: one transient write/seek failure inside each setter call, followed by a retry",
         count_subruns: false,
         expect_probes: &["dir_sectors>=2"],
     }
@@ -44,11 +44,73 @@ pub fn gen(seed: u64, idx: u64, _tier: Tier) -> Case {
             e.1 *= 3;
         }
     }
-    common::standard_case("C17", "metadata", &mut rng, &k, w)
+    let mut c = common::standard_case("C17", "metadata", &mut rng, &k, w);
+    if idx % 5 == 4 {
+        c.mode = "setter-retry".into();
+        c.params.insert("fault_seed".into(), (rng.next_u64() >> 2) as i64);
+    }
+    c
+}
+
+/// 'setter-retry' mode: every setter call first meets one transient failure of the underlying
+/// file (at a drawn seam call inside it), is retried, and must then be as durable as any other:
+/// the value set must be returned immediately and after reopening.
+fn run_setter_retry(case: &Case, known: &BTreeSet<String>) -> Outcome {
+    use crate::disk::{Fault, FaultKind};
+    use crate::runner::Ctx;
+    let flags = flags();
+    let mut ctx = Ctx::new(&flags, known);
+    let mut w = match runner::setup(case, &flags) {
+        Ok(w) => w,
+        Err(e) => {
+            ctx.out.harness_error = Some(e);
+            return ctx.out;
+        }
+    };
+    for (i, op) in case.ops.iter().enumerate() {
+        if ctx.stop {
+            break;
+        }
+        let setter = matches!(op, Op::SetStateBits(..) | Op::SetClsid(..) | Op::SetCreated(..) | Op::SetModified(..) | Op::Touch(_));
+        if !setter {
+            runner::run_ops(&mut w, &case.ops[..=i], i, &mut ctx);
+            continue;
+        }
+        let d = 1 + crate::prng::mix(case.param("fault_seed", 1) as u64 ^ i as u64) % 48;
+        let k = w.lib.disk.k() + d;
+        w.lib.disk.0.borrow_mut().plan.push(Fault { k, kind: FaultKind::Fail });
+        crate::driver::set_clock(w.model.clock);
+        let mut got = w.lib.exec(op);
+        let fired = !w.lib.disk.fired_in_call().is_empty();
+        if fired {
+            *ctx.out.stats.faults_fired.entry("F-WE/F-SE(transient, in setter)".into()).or_insert(0) += 1;
+        }
+        if got.is_err() && fired {
+            got = w.lib.exec(op); // the retry
+            if got.is_err() {
+                // later calls may fail after a fault: nothing to judge any more
+                ctx.out.stats.inconclusive += 1;
+                ctx.stop = true;
+                break;
+            }
+        }
+        w.lib.disk.0.borrow_mut().plan.clear();
+        ctx.out.stats.api_calls += 1;
+        if let Err(m) = w.model.step(op, &got) {
+            ctx.report(&m.rule, op.kind(), format!("step {}: {}", i, m.msg), i, true);
+            break;
+        }
+        if !got.is_err() {
+            ctx.out.stats.ok_mutations += 1;
+        }
+    }
+    runner::final_checks(&mut w, &mut ctx, case.ops.len());
+    runner::finish(&mut w, &mut ctx);
+    ctx.out
 }
 
 pub fn run(case: &Case, known: &BTreeSet<String>) -> Outcome {
-    let mut o = runner::run_history(case, &flags(), known);
+    let mut o = if case.mode == "setter-retry" { run_setter_retry(case, known) } else { runner::run_history(case, &flags(), known) };
     let mut span: (u64, u64) = (u64::MAX, 0);
     for op in &case.ops {
         if let Op::SetClock(t) = op {
